@@ -568,6 +568,26 @@ def check_linear_vs_kernel(ctx, exe, ds, F, C, eps):
     return None, "", ops
 
 
+def check_model_reuse(ctx, exe, ds, F, bias, C, eps, kern, r):
+    """re-use of a model object (multi-step history): k-class training followed by two-class training of the SAME
+    KernelClassifier over the same inputs must give what a fresh model gives, and vice versa"""
+    cfgs = [(0, -1), (1, 2 * ds["n"])]
+    ops = list(ds["ops"]) + [f"retrain {F} {bias} {shr} {cache} {C} {eps} {kern} {r.below(ds['k'])}" for shr, cache in cfgs]
+    rc, lines, err = run_harness_lines(exe, ops, timeout=120)
+    ctx.count("model_reuse_runs", len(cfgs)); ctx.count("evaluations", len(cfgs))
+    res = [parse_train(l) for l in lines[2:]]
+    if rc != 0 or len(res) != len(cfgs):
+        if rc == -99 and bias:
+            return None, "", ops       # offset training that does not terminate is F-C16-2/4 (reported by the sweeps)
+        m = re.search(r"ERROR: AddressSanitizer: (\S+)|runtime error: ([^\n]*)", err)
+        return f"crash:retrain:{(m.group(1) or m.group(2)) if m else 'abort'}:{F}", f"model re-use harness aborted: {err[-400:]}", ops
+    for rr in res:
+        if rr["oracle"]:
+            return (f"oracle:{'+'.join(sorted(set(rr['oracle'])))}:{F}",
+                    f"the result of training depends on the history of the model object: {rr['raw'][-300:]}", ops)
+    return None, "", ops
+
+
 def report_train(ctx, exe, seen, key, what, ops):
     k0 = ":".join(key.split(":")[:2])
     if k0 in seen: return
@@ -623,6 +643,11 @@ def trainer_sweeps(ctx, exe, nds, disp=None, corpus=()):
             if kern == "lin":
                 key, what, ops = check_linear_vs_kernel(ctx, exe, ds, F, C, eps)
                 if key: report_train(ctx, exe, seen, key, what, ops)
+        if k > 2:
+            F = r.choice(FORMS)
+            key, what, ops = check_model_reuse(ctx, exe, ds, F, 0 if eps != "1e-3" else r.below(2), C, eps, kern, r)
+            ctx.hist("model_reuse_formulation", F)
+            if key: report_train(ctx, exe, seen, key, what, ops)
 
 
 def run(ctx):
